@@ -395,6 +395,8 @@ def scope(tier, seed):
             'closure orders': 'LTL: representatives of K(<=2) x size<=2 formulas: all permutations inside '
                               'height tie groups when <= %d orders, else <=2 adjacent transpositions'
                               % (120 if tier == 'quick' else 720),
+            'closure orders (CTL*-typed routes)': 'LTL.modelcheck on CTL* objects and CTLS.modelcheck: K(1) and a '
+                                                  'stride of K(2) representatives x negation-rich path formulas',
             'successor orders': 'K(<=2) reps and K(3,{p}) reps: every successor-set order x 2 node orders',
             '4 states': 'all 24 renamings of: functional graphs x {p,q}-labellings (quick: a seed block), '
                         'all total graphs with p everywhere / missing once',
@@ -410,6 +412,8 @@ def plan(tier, seed):
         sh.append(['pres3', lo, hi])
     for lo, hi in chunks(82, 2):
         sh.append(['closure', lo, hi])
+    for i in range(48):
+        sh.append(['closure2', i, 48])
     for lo, hi in chunks(82, 4):
         sh.append(['succ2', lo, hi])
     for lo, hi in chunks(n3, 24):
@@ -471,11 +475,31 @@ def run_shard(shard, tier, seed, acc):
                 inst = Inst(k, 'LTL', f, acc)
                 if inst.base[0] == 'set':
                     closure_orders(k, f, acc, inst, 120 if tier == 'quick' else 720)
-                    if spaces.n_temporal(g) >= 1:
-                        closure_orders(k, f, acc, inst, 24 if tier == 'quick' else 120, route='LTL<-CTLS')
-                        if not __import__('mc.members', fromlist=['x']).ctl_state(f):
-                            closure_orders(k, f, acc, inst, 24 if tier == 'quick' else 120, route='CTLS')
+
         acc.sample({'k': reps[0].to_json(), 'formula': 'A(G(p) or F(q))', 'orders': 'tie-group permutations'})
+        return
+    if kind == 'closure2':
+        # the tableau is also reached with CTL*-typed formula objects (LTL.modelcheck on a CTL* object,
+        # CTLS.modelcheck falling back to it): same closure-order enumeration on those routes, over the
+        # negation-rich family where `not X f` / `X not f` pairs occur
+        from .. import members
+        reps = spaces.kripke_reps(1) + spaces.kripke_reps(2)[::(4 if tier == 'quick' else 2)]
+        gs = [g for g in spaces.path_by_size(1, spaces.LEAVES2) if spaces.n_temporal(g) >= 1] + \
+             [g for g in spaces.negated_path() if spaces.n_temporal(g) >= 1][::(2 if tier == 'quick' else 1)]
+        work = [(k, g) for k in reps for g in gs]
+        for k, g in work[shard[1]::shard[2]]:
+            if deadline_passed():
+                acc.capped()
+                return
+            f = ('A', g)
+            inst = Inst(k, 'LTL', f, acc)
+            if inst.base[0] != 'set':
+                continue
+            closure_orders(k, f, acc, inst, 24 if tier == 'quick' else 120, route='LTL<-CTLS')
+            if not members.ctl_state(f):
+                closure_orders(k, f, acc, inst, 24 if tier == 'quick' else 120, route='CTLS')
+        acc.sample({'route': 'LTL.modelcheck(K, CTLS.A(...))', 'formula': 'A(X(not(p)))',
+                    'orders': 'tie-group permutations, reversal, adjacent transpositions'})
         return
     if kind in ('succ2', 'succ3'):
         if kind == 'succ2':
